@@ -44,4 +44,22 @@ def control_order(inp):
         p2, q2 = c.get_controls(2, dt=0.1, start_time=0.0)
         if p2 is not None or q2 is not None:
             bad.append({'post': post, 'step2': 'not None'})
-    return {'violates': bool(bad), 'detail': bad}
+    # the same Control object used on a second time grid (no state may be carried over)
+    for post in (False, True):
+        c = Control(2)
+        c.add_single(0.3, x, post=post)
+        for dt, t0, want_step in ((0.1, 0.0, 3), (0.05, 0.0, 6), (0.1, 0.2, 1)):
+            for step in range(0, 8):
+                pre, po = c.get_controls(step, dt=dt, start_time=t0)
+                got = po if post else pre
+                if (got is not None) != (step == want_step):
+                    bad.append({'post': post, 'grid': [dt, t0], 'step': step, 'control_present': got is not None, 'required': step == want_step})
+    # a look-up must see controls added after an earlier look-up
+    c = Control(2)
+    c.get_controls(2, dt=0.1, start_time=0.0)
+    c.add_single(2, x)
+    c.add_single(2, y)
+    pre, _ = c.get_controls(2, dt=0.1, start_time=0.0)
+    if pre is None or not np.allclose(pre, y @ x):
+        bad.append({'get-add-get': 'later additions not seen or composed in the wrong order'})
+    return {'violates': bool(bad), 'detail': bad[:4]}
